@@ -773,12 +773,11 @@ def run_opt_tables(unit, res):
                                                {"ids": ids, "vals": np.asarray(vals).tolist()}, f"optimize_acqf_discrete table={table} q={q} returned ids {ids} values {np.asarray(vals).tolist()}"))
                 return
     # decoupled optimiser: every n x m table over {0,1,2}, with and without costs
-    nd, md = (3, 2) if not thorough else (3, 3)
-    if n == 3:
+    for nd, md in (((3, 2), (3, 3)) if n == 3 else ()):
         for flat in itertools.product((0.0, 1.0, 2.0), repeat=nd * md):
             table = np.array(flat).reshape(nd, md)
             for costs in (None, np.array([1.0, 2.0, 4.0][:md])):
-                for q in range(1, nd + 1):
+                for q in range(1, nd + 2):  # up to one more than the number of designs (more pairs than designs exist)
                     res["evaluations"] += 1
                     case = {"mode": "optdec", "table": table.tolist(), "costs": None if costs is None else costs.tolist(), "q": q}
                     ch = np.stack([np.arange(nd), 10.0 + np.arange(nd)], axis=1).astype(float)
